@@ -259,7 +259,19 @@ func init() {
 		Packages:   []string{"."},
 		Corpus:     true,
 		CorpusOnly: nil,
-		Extra:      func(r *Run) { r.VerifyGenerated(r.corpus, "C04") },
+		Extra: func(r *Run) {
+			r.VerifyGenerated(r.corpus, "C04")
+			// the compile-time gate: templates that hand a templ.SafeURL to href / action in every attribute position
+			// must compile after generation
+			for dir, msg := range r.corpus.Broken {
+				r.e.addObl(&Obligation{Name: dir + "#gate.typechecks", Kind: "gate", Func: dir, Goal: False, Verdict: "sat", Solver: "go/types",
+					Note: "the code generated for corpus directory " + dir + " does not type-check: " + msg + " (a URL attribute is not routed through the templ.SafeURL path, or the generator emits invalid code)"})
+			}
+			if _, bad := r.corpus.Broken["x_url_attributes"]; !bad {
+				r.e.addObl(&Obligation{Name: "x_url_attributes#gate.typechecks", Kind: "gate", Func: "x_url_attributes", Goal: True, Verdict: "unsat", Solver: "go/types",
+					Note: "templates with templ.SafeURL values in href / action (plain, conditional, else branch, nested conditional) generate code that type-checks"})
+			}
+		},
 		Assume: []string{
 			"URL_BROWSER_OK (contracts/lang/url.lang) formalises WHATWG scheme extraction; written from the standard",
 			"strings.IndexRune / ContainsRune / EqualFold behave as their models state (EqualFold = membership in the simple-fold closure, derived from unicode.SimpleFold)",
